@@ -429,6 +429,8 @@ class RefRun:
             return ref.v_alias(t, bool(st.get("keep")), st.get("name"), h, m)
         if v == "collect":
             return ref.v_collect(t, st.get("keep", True), h, m)
+        if v == "transfer":
+            return ref.v_transfer(t, self.env[st["ref"]], h, m)
         raise ref.RefUnsupported(v)
 
 
